@@ -11,6 +11,7 @@ import (
 	"context"
 	"os"
 	"strings"
+	"time"
 
 	"github.com/benbjohnson/litestream/internal/vx"
 	"github.com/superfly/ltx"
@@ -66,7 +67,7 @@ func VxC11Sync() {
 	vx.FSFaults(true)
 	res, err := db.syncReal(context.Background(), false, exec, info, 0)
 	vx.FSFaults(false)
-	vx.Assert("renamed-file-was-flushed-and-closed", vx.FSEvents("rename-of-") == 0)
+	vx.Assert("renamed-file-was-flushed-and-closed", vx.FSEvents("rename-of-unsynced-file") == 0)
 	// the temp file is removed on every path, unless that very removal was made to fail
 	// (a stale temp file is then cleaned up by the next Open, see VxC03Sync)
 	if !vxTraceHas("FAIL unlink") {
@@ -136,7 +137,7 @@ func VxC11Sidecar() {
 	vx.FSFaults(true)
 	err := WriteTXIDFile(out, 5)
 	vx.FSFaults(false)
-	vx.Assert("renamed-file-was-flushed-and-closed", vx.FSEvents("rename-of-") == 0)
+	vx.Assert("renamed-file-was-flushed-and-closed", vx.FSEvents("rename-of-unsynced-file") == 0)
 	if err == nil {
 		txid, rerr := ReadTXIDFile(out)
 		vx.Assert("sidecar-holds-the-txid", rerr == nil && txid == 5 && !vx.FSFileDirty(out+"-txid"))
@@ -182,7 +183,7 @@ func VxC11Baseline() {
 	vx.FSFaults(vx.Fault("withFaults"))
 	err := db.checkDatabaseBehindReplica(context.Background())
 	vx.FSFaults(false)
-	vx.Assert("renamed-file-was-flushed-and-closed", vx.FSEvents("rename-of-") == 0)
+	vx.Assert("renamed-file-was-flushed-and-closed", vx.FSEvents("rename-of-unsynced-file") == 0)
 	if err == nil {
 		vx.Assert("baseline-fetched", vx.FSExists(local) && vx.FSComplete(local) && !vx.FSFileDirty(local))
 		vx.Assert("success-only-after-directory-flush", !vx.FSDirDirty(db.LTXLevelDir(0)))
@@ -233,5 +234,63 @@ func VxC03Baseline() {
 	vx.Assert("restart-position-is-the-replica-position", perr == nil && pos.TXID == 2 && vx.FSComplete(local))
 	for _, name := range vx.FSList(l0) {
 		vx.Assert("restart-removes-temp-files", !strings.HasSuffix(name, ".tmp"))
+	}
+}
+
+// VxC11SyncResetSync: a sync, a run-time reset of the local state directory
+// (auto-recovery removes and recreates the LTX directories), another sync: the
+// second sync's success still means that the directory the new file was renamed
+// into has been flushed - the directory that exists now, not one that was removed.
+func VxC11SyncResetSync() {
+	db, exec, info := vxSyncDB(0, true)
+	defer db.f.Close()
+	db.Replica = NewReplicaWithClient(db, &vxRepClient{})
+	ctx := context.Background()
+	res, err := db.syncReal(ctx, false, exec, info, 0)
+	if err != nil || !res.synced {
+		panic("vx: first sync failed")
+	}
+	vx.Assert("success-only-after-directory-flush", !vx.FSDirDirty(db.LTXLevelDir(0)))
+	if err := db.ResetLocalState(ctx); err != nil {
+		return
+	}
+	final := db.LTXPath(0, 1, 1)
+	vx.Assert("reset-removed-the-local-files", !vx.FSExists(final))
+	exec2 := &syncExecutor{}
+	info2 := syncInfo{offset: WALHeaderSize, snapshotting: true}
+	vx.FSFaults(vx.Fault("withFaults"))
+	res2, err2 := db.syncReal(ctx, false, exec2, info2, 0)
+	vx.FSFaults(false)
+	vx.Assert("renamed-file-was-flushed-and-closed", vx.FSEvents("rename-of-unsynced-file") == 0)
+	if err2 != nil || !res2.synced {
+		return
+	}
+	vx.Assert("success-published-the-file", vx.FSExists(final) && !vx.FSFileDirty(final) && vx.FSComplete(final))
+	vx.Assert("success-only-after-directory-flush", !vx.FSDirDirty(db.LTXLevelDir(0)))
+}
+
+// VxC11RestoreFollow: a restore in follow mode: the database is published under
+// its final name only after its content was flushed, and the TXID sidecar - the
+// acknowledgement that the database is at that TXID - is published only after
+// the database and its directory entry are durable.
+func VxC11RestoreFollow() {
+	c := &vxDamageClient{}
+	expect := vxRestoreReplica(c)
+	dir := vx.TempDir()
+	out := dir + "/restore/db"
+	ctx, cancel := context.WithCancel(context.Background())
+	vx.OnTick(2, cancel)
+	vxApplyRecord, vxApplied, vxApplyFail = true, nil, 0
+	defer func() { vxApplyRecord = false }()
+	r := NewReplicaWithClient(nil, c)
+	vx.FSFaults(vx.Fault("withFaults"))
+	err := r.Restore(ctx, RestoreOptions{OutputPath: out, Follow: true, FollowInterval: time.Millisecond})
+	vx.FSFaults(false)
+	vx.Assert("renamed-file-was-flushed", vx.FSEvents("rename-of-unsynced-file") == 0)
+	if vx.FSExists(out + "-txid") {
+		vx.Assert("sidecar-only-beside-a-complete-database", vx.FSExists(out) && vxDBEquals(out, expect))
+	}
+	if err == nil {
+		vx.Assert("follow-restore-leaves-database-and-sidecar", vx.FSExists(out) && vx.FSExists(out+"-txid") && !vx.FSFileDirty(out))
 	}
 }
